@@ -77,12 +77,12 @@ func (e *Engine) callFunction(st *State, f *Frame, res ssa.Value, in ssa.Instruc
 		}
 	}
 	if h, ok := stubs[name]; ok {
-		e.stubsSeen[name] = true
+		e.sawStub(name)
 		h(e, ctx)
 		return
 	}
 	if h := e.prefixStub(name); h != nil {
-		e.stubsSeen[name] = true
+		e.sawStub(name)
 		h(e, ctx)
 		return
 	}
@@ -92,7 +92,7 @@ func (e *Engine) callFunction(st *State, f *Frame, res ssa.Value, in ssa.Instruc
 	if denyExec(callee) {
 		panic(hardErr("no model for " + name))
 	}
-	e.funcsSeen[name] = true
+	e.sawFunc(name)
 	e.pushFrame(st, callee, args, bind, res)
 }
 
@@ -125,7 +125,7 @@ func (e *Engine) callValue(st *State, fv FuncV, args []Value, onReturn func(st *
 	if fv.fn.Blocks == nil {
 		panic(hardErr("callValue of external function " + fv.fn.String()))
 	}
-	e.funcsSeen[fv.fn.String()] = true
+	e.sawFunc(fv.fn.String())
 	nf := e.pushFrame(st, fv.fn, args, fv.bind, nil)
 	nf.onReturn = onReturn
 }
@@ -600,7 +600,7 @@ func (e *Engine) selectOp(st *State, f *Frame, x *ssa.Select) {
 		if o.status == "" {
 			e.push(o)
 		}
-		e.forks++
+		e.incForks()
 	}
 	apply(st, rs[0])
 }
